@@ -466,7 +466,10 @@ func (c *Core) localDelivery(bp BundleDescriptor) {
 	_ = bp.Sync()
 
 	if err := c.agentManager.Deliver(bp); err != nil {
+		// Without a hand-over to an application agent the bundle is neither reported as delivered nor released; it
+		// stays in the store until its lifetime expires.
 		log.WithField("bundle", bp.ID()).WithError(err).Warn("Delivering local bundle errored")
+		return
 	}
 
 	if bp.MustBundle().PrimaryBlock.BundleControlFlags.Has(bpv7.StatusRequestDelivery) {
